@@ -372,7 +372,7 @@ func (ka *eccKeyAgreementGM) processServerKeyExchange(config *Config, clientHell
 	if len(skx.key) <= 2 {
 		return errServerKeyExchange
 	}
-	sigLen := int(skx.key[0]<<8 | skx.key[1])
+	sigLen := int(skx.key[0])<<8 | int(skx.key[1])
 	if sigLen+2 != len(skx.key) {
 		return errServerKeyExchange
 	}
@@ -382,8 +382,8 @@ func (ka *eccKeyAgreementGM) processServerKeyExchange(config *Config, clientHell
 	digest := ka.hashForServerKeyExchange(clientHello.random, serverHello.random, ka.encipherCert.Raw)
 
 	//verify
-	pubKey, _ := cert.PublicKey.(*ecdsa.PublicKey)
-	if pubKey.Curve != sm2.P256Sm2() {
+	pubKey, ok := cert.PublicKey.(*ecdsa.PublicKey)
+	if !ok || pubKey.Curve != sm2.P256Sm2() {
 		return errors.New("tls: sm2 signing requires a sm2 public key")
 	}
 
@@ -431,7 +431,10 @@ func (ka *eccKeyAgreementGM) generateClientKeyExchange(config *Config, clientHel
 	if err != nil {
 		return nil, nil, err
 	}
-	pubKey := ka.encipherCert.PublicKey.(*ecdsa.PublicKey)
+	pubKey, ok := ka.encipherCert.PublicKey.(*ecdsa.PublicKey)
+	if !ok {
+		return nil, nil, errors.New("tls: sm2 encryption requires a sm2 public key")
+	}
 	sm2PubKey := &sm2.PublicKey{Curve: pubKey.Curve, X: pubKey.X, Y: pubKey.Y}
 	encrypted, err := sm2.Encrypt(sm2PubKey, preMasterSecret, config.rand(), sm2.C1C3C2)
 	if err != nil {
